@@ -163,9 +163,23 @@ def run_check(prop: str, tier: str) -> int:
     lost_recovered = 0
     item_by_key = {it[0]: it for it in items}
     # scenarios that hung or killed their worker: confirm alone, fresh process
-    for key in sorted(k for k, r in results.items() if "lost" in r):
+    lost_keys = sorted((k for k, r in results.items() if "lost" in r),
+                       key=_key_order)
+    confirmed: dict = {}
+    for key in lost_keys:
         r = results[key]
-        alone = _rerun_alone(prop, engine, root, r["item"], cap, workdir)
+        if len(confirmed.get(r["lost"], [])) >= 3:
+            # three scenarios of this kind were already confirmed alone
+            doc0 = r["item"][3] or engine.generate(
+                core.scenario_rng(root, r["item"][1]["name"], r["item"][2]),
+                r["item"][1])
+            alone = {"rc": confirmed[r["lost"]][0], "res": None,
+                     "err": "not re-run alone (3 others confirmed)",
+                     "doc": doc0}
+        else:
+            alone = _rerun_alone(prop, engine, root, r["item"], cap, workdir)
+            if alone["res"] is None:
+                confirmed.setdefault(r["lost"], []).append(alone["rc"])
         if alone["res"] is not None:
             lost_recovered += 1
             rr = alone["res"]
